@@ -666,4 +666,126 @@ theorem seg_of_emit {r : Re} (hw : WF r) : ∀ (s : Nat) (code : Code) (a : Nat)
 
 
 
+
+/-! ### backward code: the forward code of the mirrored expression -/
+/-- the expression read right to left -/
+def rev : Re → Re
+  | .cat a b => .cat (rev b) (rev a)
+  | .alt a b => .alt (rev a) (rev b)
+  | .star a g => .star (rev a) g
+  | .plus a g => .plus (rev a) g
+  | .range a lo hi g => .range (rev a) lo hi g
+  | r => r
+
+/-- `_yr_re_emit` with EMIT_BACKWARDS writes the forward code of the mirrored expression -/
+theorem emit_rev (r : Re) : ∀ s, emit true r s = emit false (rev r) s := by
+  induction r with
+  | cat a b iha ihb => intro s; simp only [emit, rev, if_true, Bool.false_eq_true, if_false, iha, ihb]
+  | alt a b iha ihb => intro s; simp only [emit, rev, iha, ihb]
+  | star a g ih => intro s; simp only [emit, rev, ih]
+  | plus a g ih => intro s; simp only [emit, rev, ih]
+  | range a lo hi g ih => intro s; simp only [emit, rev, ih]
+  | _ => intro s; simp only [emit, rev]
+
+theorem rev_wf {r : Re} (h : WF r) : WF (rev r) := by
+  induction h with
+  | lit b => exact .lit b
+  | masked v m => exact .masked v m
+  | notLit b => exact .notLit b
+  | maskedNot v m => exact .maskedNot v m
+  | any => exact .any
+  | cls bm neg => exact .cls bm neg
+  | wordCh => exact .wordCh
+  | nonWordCh => exact .nonWordCh
+  | space => exact .space
+  | nonSpace => exact .nonSpace
+  | digit => exact .digit
+  | nonDigit => exact .nonDigit
+  | bol => exact .bol
+  | eol => exact .eol
+  | wordB => exact .wordB
+  | nonWordB => exact .nonWordB
+  | empty => exact .empty
+  | rangeAny lo hi g h1 h2 => exact .rangeAny lo hi g h1 h2
+  | range lo hi g _ h1 h2 ih => exact .range lo hi g ih h1 h2
+  | star g _ ih => exact .star g ih
+  | plus g _ ih => exact .plus g ih
+  | cat _ _ ih1 ih2 => exact .cat ih2 ih1
+  | alt _ _ ih1 ih2 => exact .alt ih1 ih2
+
+section
+variable {fl : Flags} {buf : Bytes}
+
+/-- the mirrored shape of the emit table, read backwards: tail · loop · prolog — still `e{lo,hi}` -/
+theorem shapeB_sound (a : Re) (lo hi : Nat) (g : Bool) (hlh : lo ≤ hi) {p q : Nat}
+    (hm : Re.Matches fl buf (.cat (.cat (if emitSplit lo hi then .range a 0 1 g else if emitEpilog lo hi then a else .empty)
+        (if emitRepeat lo hi then .range a (repMin lo hi) (repMax lo hi) g else .empty)) (if emitProlog lo then a else .empty)) p q) :
+    Re.Matches fl buf (.range a lo hi g) p q := by
+  obtain ⟨u, h32, h1⟩ := (cat_iff _ _ _ _).1 hm
+  obtain ⟨t, h3, h2⟩ := (cat_iff _ _ _ _).1 h32
+  rw [range_iff_cnt]
+  -- each section is a count interval
+  have c3 : Cnt fl buf a (if emitSplit lo hi then 0 else if emitEpilog lo hi then 1 else 0) (if emitSplit lo hi then 1 else if emitEpilog lo hi then 1 else 0) p t := by
+    by_cases c : emitSplit lo hi = true
+    · simp only [c, if_true] at h3 ⊢; exact (range_iff_cnt a 0 1 g p t).1 h3
+    · by_cases c2 : emitEpilog lo hi = true
+      · simp only [c, c2, if_true, if_false] at h3 ⊢; exact (one_iff_cnt a p t).1 h3
+      · simp only [c, c2, if_false] at h3 ⊢; exact (empty_iff_cnt a p t).1 h3
+  have c2 : Cnt fl buf a (if emitRepeat lo hi then repMin lo hi else 0) (if emitRepeat lo hi then repMax lo hi else 0) t u := by
+    by_cases c : emitRepeat lo hi = true
+    · simp only [c, if_true] at h2 ⊢; exact (range_iff_cnt a _ _ g t u).1 h2
+    · simp only [c, if_false] at h2 ⊢; exact (empty_iff_cnt a t u).1 h2
+  have c1 : Cnt fl buf a (if emitProlog lo then 1 else 0) (if emitProlog lo then 1 else 0) u q := by
+    by_cases c : emitProlog lo = true
+    · simp only [c, if_true] at h1 ⊢; exact (one_iff_cnt a u q).1 h1
+    · simp only [c, if_false] at h1 ⊢; exact (empty_iff_cnt a u q).1 h1
+  obtain ⟨k3, a3, b3, p3⟩ := c3
+  obtain ⟨k2, a2, b2, p2⟩ := c2
+  obtain ⟨k1, a1, b1, p1⟩ := c1
+  refine ⟨k3 + k2 + k1, ?_, ?_, (p3.append p2).append p1⟩
+  all_goals
+    simp only [emitProlog, emitRepeat, emitSplit, emitEpilog, repMin, repMax] at a1 b1 a2 b2 a3 b3
+    by_cases d1 : lo > 0 <;> by_cases d2 : hi > lo <;> by_cases d3 : hi > lo + 1 <;> by_cases d4 : hi > 2 <;> by_cases d5 : hi > 1 <;>
+      simp [d1, d2, d3, d4, d5] at a1 b1 a2 b2 a3 b3 <;> omega
+
+theorem lower_range_reB (a : Re) (lo hi : Nat) (g : Bool) : (lower (.range a lo hi g)).reB =
+    .cat (.cat (if emitSplit lo hi then .range (lower a).reB 0 1 g else if emitEpilog lo hi then (lower a).reB else .empty)
+      (if emitRepeat lo hi then .range (lower a).reB (repMin lo hi) (repMax lo hi) g else .empty)) (if emitProlog lo then (lower a).reB else .empty) := by
+  simp only [lower, Ir.reB]
+  congr 1
+  · congr 1
+    · split
+      · rfl
+      · split <;> rfl
+    · split <;> rfl
+  · split <;> rfl
+
+/-- the backward reading of the lowered mirrored expression is the expression -/
+theorem lowerB_sem {r : Re} (hw : WF r) : ∀ p q, Re.Matches fl buf (lower (rev r)).reB p q → Re.Matches fl buf r p q := by
+  induction hw with
+  | lit _ | masked _ _ | notLit _ | maskedNot _ _ | any | cls _ _ | wordCh | nonWordCh | space | nonSpace | digit | nonDigit | bol | eol | wordB | nonWordB =>
+    intro p q h; exact h
+  | empty => intro p q h; exact h
+  | rangeAny _ _ _ _ _ => intro p q h; exact h
+  | @range a lo hi g _ hlh _ ih =>
+    intro p q hm
+    simp only [rev] at hm
+    rw [lower_range_reB] at hm
+    exact range_congr lo hi g ih (shapeB_sound _ lo hi g hlh hm)
+  | @star a g _ ih => intro p q hm; exact star_congr g ih hm
+  | @plus a g _ ih => intro p q hm; exact plus_congr g ih hm
+  | @cat a b _ _ ih1 ih2 =>
+    intro p q hm
+    simp only [rev, lower, Ir.reB] at hm
+    obtain ⟨t, h1, h2⟩ := (cat_iff _ _ _ _).1 hm
+    exact .cat (ih1 _ _ h1) (ih2 _ _ h2)
+  | @alt a b _ _ ih1 ih2 =>
+    intro p q hm
+    simp only [rev, lower, Ir.reB] at hm
+    cases hm with
+    | altL h1 => exact .altL (ih1 _ _ h1)
+    | altR h1 => exact .altR (ih2 _ _ h1)
+
+end
+
 end YaraModel.ReEmit
